@@ -10,14 +10,27 @@
 //!              re-measured on an independent fine flattening, split additivity, walker.
 //!   `witness`  (tie + oracle)  the fixed witnesses of the known defects.
 //!
+//! HISTORIES (every family, drawn from the case RNG after all other draws):
+//!   * the `PathMeasurements` object a case measures with has a LIFE: in a good share of the cases
+//!     it was initialised before with 1–4 other paths (longer, shorter, empty, other attribute
+//!     counts / tolerances), through every entry point (`from_path`, `from_path_slice`,
+//!     `from_iter`, `empty()` + `initialize` / `initialize_with_path` /
+//!     `initialize_with_path_slice`, and the three `initialize*` on the used object); in every
+//!     phase of that life a sampler (Distance / Normalized, with or without attributes) runs a
+//!     query sequence which is printed (tie) and checked by the same oracle clauses — the
+//!     property holds for the path the object was LAST initialised with;
+//!   * the walk families measure the walked path on such a recycled object (`mlen`), and walk
+//!     with a pattern OBJECT that has walked another path before (`RepeatedPattern::index`
+//!     survives; `pre`).
+//!
 //! IMPL token streams are documented in `lean/LyonVerif/Drive/C19.lean`.
 
 use lyon_algorithms::length::approximate_length;
-use lyon_algorithms::measure::{PathMeasurements, SampleType};
+use lyon_algorithms::measure::{PathMeasurements, PathSampler, SampleType};
 use lyon_algorithms::walk::{walk_along_path, RegularPattern, RepeatedPattern, WalkerEvent};
 use lyon_geom::{point, CubicBezierSegment, Point, QuadraticBezierSegment};
 use lyon_path::builder::PathBuilder;
-use lyon_path::{Attributes, EndpointId, Path};
+use lyon_path::{AttributeStore, Attributes, EndpointId, Path};
 use vh::{CaseOut, Ctx, Oracle, Out, Rng};
 
 type Pt = Point<f32>;
@@ -546,6 +559,9 @@ fn has_degenerate_curve(cmds: &[Cmd], tol: f32) -> bool {
 struct SamplerRun<'a> {
     cmds: &'a [Cmd],
     nattr: usize,
+    /// the sampler is created with `create_sampler_with_attributes` (else `create_sampler`:
+    /// attribute store `()`, every sample / builder call carries no attributes)
+    sattr: bool,
     normalized: bool,
     tol: f32,
     curved: bool,
@@ -560,11 +576,29 @@ fn eff_dist(d: f32, normalized: bool, len: f32) -> f32 {
 }
 
 impl<'a> SamplerRun<'a> {
-    fn run(&self, queries: &[Query], o: &mut Out, orc: &mut Oracle) {
-        let path = build_path(self.cmds, self.nattr);
-        let m = PathMeasurements::from_path(&path, self.tol);
+    /// number of attributes the sampler interpolates
+    fn sn(&self) -> usize {
+        if self.sattr {
+            self.nattr
+        } else {
+            0
+        }
+    }
+
+    /// `m` must have been initialised (by whatever history) with `path` = `build_path(self.cmds)`
+    /// at `self.tol`.  Returns `false` if a query panicked (the IMPL stream ends there).
+    fn run(&self, m: &PathMeasurements, path: &Path, queries: &[Query], o: &mut Out, orc: &mut Oracle) -> bool {
         let ty = if self.normalized { SampleType::Normalized } else { SampleType::Distance };
-        let mut sampler = m.create_sampler_with_attributes(&path, &path, ty);
+        if self.sattr {
+            let mut sampler = m.create_sampler_with_attributes(path, path, ty);
+            self.run_with(m, path, &mut sampler, queries, o, orc)
+        } else {
+            let mut sampler = m.create_sampler(path, ty);
+            self.run_with(m, path, &mut sampler, queries, o, orc)
+        }
+    }
+
+    fn run_with<AS: AttributeStore>(&self, m: &PathMeasurements, path: &Path, sampler: &mut PathSampler<Path, AS>, queries: &[Query], o: &mut Out, orc: &mut Oracle) -> bool {
         let len = m.length();
         let alen = approximate_length(path.iter(), self.tol);
         // coarse = lyon_geom's flattening at the sampler's tolerance (what the table is built from)
@@ -622,7 +656,7 @@ impl<'a> SamplerRun<'a> {
                                 "generic"
                             };
                             orc.check(false, "sampler.sample/no-panic", class, || format!("sample({}) panicked", d));
-                            return;
+                            return false;
                         }
                         Some((pos, tan, attrs)) => {
                             o.t("S").p(pos).v(tan);
@@ -642,7 +676,7 @@ impl<'a> SamplerRun<'a> {
                             let s = eff_dist(*a, self.normalized, len);
                             let class = if single_point_first(self.cmds) && s == 0.0 && len > 0.0 { "single-point-subpath-cursor" } else { "generic" };
                             orc.check(false, "sampler.split_range/no-panic", class, || format!("split_range({}..{}) panicked", a, b));
-                            return;
+                            return false;
                         }
                         Some(()) => {
                             o.t("R");
@@ -656,7 +690,7 @@ impl<'a> SamplerRun<'a> {
 
         // --- additivity a..b + b..c = a..c on a fresh sampler (explicit form of the property)
         if len > 0.0 && !(single_point_first(self.cmds)) {
-            let mut s2 = m.create_sampler_with_attributes(&path, &path, SampleType::Distance);
+            let mut s2 = m.create_sampler_with_attributes(path, path, SampleType::Distance);
             let mut cuts: Vec<f32> = queries
                 .iter()
                 .flat_map(|q| match q {
@@ -688,6 +722,7 @@ impl<'a> SamplerRun<'a> {
                 }
             }
         }
+        true
     }
 
     #[allow(clippy::too_many_arguments)]
@@ -695,7 +730,8 @@ impl<'a> SamplerRun<'a> {
         if len == 0.0 {
             // zero-length path: the first point (or NaNs for an empty path) — nothing to re-measure
             if let Some(Cmd::B(p, a)) = self.cmds.get(0) {
-                orc.check(pos == *p && attrs == &a[..], "sampler.sample/zero-length-path", "generic", || format!("got {:?} {:?}", pos, attrs));
+                let want: &[f32] = if self.sattr { &a[..] } else { &[] };
+                orc.check(pos == *p && attrs == want, "sampler.sample/zero-length-path", "generic", || format!("got {:?} {:?}", pos, attrs));
             } else {
                 orc.check(pos.x.is_nan() && pos.y.is_nan(), "sampler.sample/empty-path-nan", "generic", || format!("got {:?}", pos));
             }
@@ -729,7 +765,7 @@ impl<'a> SamplerRun<'a> {
             let tallow = 1e-5 + 8.0 * 1.2e-7 * maxcoord(self.cmds) / shortest.max(1e-30);
             orc.check(tbest <= tallow, "sampler.sample/tangent", "generic", || format!("sample({}) tangent {:?}: off by {} (allowance {})", d, tan, tbest, tallow));
             // attributes: linear between the endpoints of the edge, at the edge parameter
-            if self.nattr > 0 {
+            if self.sn() > 0 {
                 let abest = cands
                     .iter()
                     .map(|c| {
@@ -773,7 +809,7 @@ impl<'a> SamplerRun<'a> {
                     orc.check(tbest <= 1.0, "sampler.sample/tangent", "generic", || format!("sample({}) tangent {:?}: off by {}", d, tan, tbest));
                 }
             }
-            if self.nattr > 0 {
+            if self.sn() > 0 {
                 let abest = near
                     .iter()
                     .map(|(s, k)| {
@@ -939,8 +975,182 @@ fn put_queries(o: &mut Out, qs: &[Query]) {
     }
 }
 
+// ---------------------------------------------------------------------------------------------
+// the life of one PathMeasurements object
+
+#[derive(Clone, Copy, Debug, PartialEq)]
+enum Entry {
+    FromPath,
+    FromSlice,
+    FromIter,
+    EmptyInit,
+    EmptyInitPath,
+    EmptyInitSlice,
+    Init,
+    InitPath,
+    InitSlice,
+}
+
+const CTORS: [Entry; 6] = [Entry::FromPath, Entry::FromSlice, Entry::FromIter, Entry::EmptyInit, Entry::EmptyInitPath, Entry::EmptyInitSlice];
+const REINITS: [Entry; 3] = [Entry::Init, Entry::InitPath, Entry::InitSlice];
+
+impl Entry {
+    fn word(self) -> &'static str {
+        match self {
+            Entry::FromPath => "fp",
+            Entry::FromSlice => "fs",
+            Entry::FromIter => "fi",
+            Entry::EmptyInit => "ei",
+            Entry::EmptyInitPath => "ep",
+            Entry::EmptyInitSlice => "es",
+            Entry::Init => "in",
+            Entry::InitPath => "ip",
+            Entry::InitSlice => "is",
+        }
+    }
+
+    /// the object after this entry point: a new one (constructors) or `used`, re-initialised
+    fn obtain(self, used: Option<PathMeasurements>, path: &Path, tol: f32) -> PathMeasurements {
+        let reinit = |e: Entry, mut m: PathMeasurements| {
+            match e {
+                Entry::EmptyInit | Entry::Init => m.initialize(path.id_iter(), path, tol),
+                Entry::EmptyInitPath | Entry::InitPath => m.initialize_with_path(path, tol),
+                _ => m.initialize_with_path_slice(path.as_slice(), tol),
+            }
+            m
+        };
+        match self {
+            Entry::FromPath => PathMeasurements::from_path(path, tol),
+            Entry::FromSlice => PathMeasurements::from_path_slice(&path.as_slice(), tol),
+            Entry::FromIter => PathMeasurements::from_iter(path.id_iter(), path, tol),
+            Entry::EmptyInit | Entry::EmptyInitPath | Entry::EmptyInitSlice => reinit(self, PathMeasurements::empty()),
+            Entry::Init | Entry::InitPath | Entry::InitSlice => reinit(self, used.unwrap_or_else(PathMeasurements::empty)),
+        }
+    }
+}
+
+/// one earlier phase of the object's life: initialised with `cmds`, queried by one sampler
+#[derive(Clone, Debug)]
+struct Phase {
+    entry: Entry,
+    tol: f32,
+    nattr: usize,
+    sattr: bool,
+    normalized: bool,
+    curved: bool,
+    cmds: Vec<Cmd>,
+    queries: Vec<Query>,
+}
+
+#[derive(Clone, Debug)]
+struct History {
+    phases: Vec<Phase>,
+    /// entry point for the case's own path (a re-initialisation iff there are earlier phases)
+    last: Entry,
+    /// the case's sampler is created with attributes
+    sattr: bool,
+}
+
+impl History {
+    fn none() -> History {
+        History { phases: Vec::new(), last: Entry::FromPath, sattr: true }
+    }
+    fn is_none(&self) -> bool {
+        self.phases.is_empty() && self.last == Entry::FromPath && self.sattr
+    }
+    fn tag(&self) -> String {
+        if self.is_none() {
+            String::new()
+        } else {
+            format!(" hist{} {}{}", self.phases.len(), self.last.word(), if self.sattr { "" } else { " noattr-sampler" })
+        }
+    }
+}
+
+/// Drawn AFTER every other draw of the case.  `curved`: the earlier paths may contain curves.
+fn gen_history(rng: &mut Rng, curved: bool) -> History {
+    let k = match rng.below(8) {
+        0..=2 => return History::none(),
+        3 => 0,
+        4 | 5 => 1,
+        6 => 2,
+        _ => rng.range(2, 4) as usize,
+    };
+    let mut phases = Vec::new();
+    for i in 0..k {
+        let nattr = *rng.pick(&[0usize, 0, 1, 2]);
+        let coords = if rng.chance(1, 2) { Coords::Lattice } else { Coords::Uniform };
+        let cv = curved && rng.chance(2, 3);
+        // shorter, longer (several generated paths in a row) and empty ones
+        let reps = match rng.below(6) {
+            0 => 3,
+            1 | 2 => 2,
+            _ => 1,
+        };
+        let mut cmds = Vec::new();
+        for _ in 0..reps {
+            cmds.extend(gen_path(rng, nattr, cv, coords).0);
+        }
+        let tol = if cv { *rng.pick(&[0.01f32, 0.05, 0.1, 0.5]) } else { *rng.pick(&[0.01f32, 0.1, 1.0, 1e-5, 0.0]) };
+        let normalized = rng.chance(1, 2);
+        let nq = rng.range(0, 6) as usize;
+        let mode = rng.below(4);
+        let queries = gen_queries(rng, normalized, &cmds, nq, mode);
+        let entry = if i == 0 { *rng.pick(&CTORS) } else { *rng.pick(&REINITS) };
+        phases.push(Phase { entry, tol, nattr, sattr: rng.chance(2, 3), normalized, curved: cv, cmds, queries });
+    }
+    let last = if k == 0 { *rng.pick(&CTORS) } else { *rng.pick(&REINITS) };
+    History { phases, last, sattr: rng.chance(3, 4) }
+}
+
+/// `H <k> <phase>{k} <entry> <sattr>` (nothing for the plain `from_path` + attributes case)
+fn put_history(o: &mut Out, h: &History) {
+    if h.is_none() {
+        return;
+    }
+    o.t("H").u(h.phases.len() as u64);
+    for p in &h.phases {
+        o.t(p.entry.word()).f(p.tol).u(p.nattr as u64).b(p.sattr).b(p.normalized);
+        put_cmds(o, &p.cmds, true);
+        put_queries(o, &p.queries);
+    }
+    o.t(h.last.word()).b(h.sattr);
+}
+
+/// Live through the earlier phases on ONE object: each phase is printed (`h …`) and checked by the
+/// same oracle as a case's own path.  Returns the used object, or `Err` if a query panicked.
+fn run_phases(h: &History, o: &mut Out, orc: &mut Oracle) -> Result<Option<PathMeasurements>, ()> {
+    let mut used: Option<PathMeasurements> = None;
+    for (i, p) in h.phases.iter().enumerate() {
+        let path = build_path(&p.cmds, p.nattr);
+        let m = p.entry.obtain(used.take(), &path, p.tol);
+        o.t("h");
+        let run = SamplerRun { cmds: &p.cmds, nattr: p.nattr, sattr: p.sattr, normalized: p.normalized, tol: p.tol, curved: p.curved };
+        let mut porc = Oracle::new();
+        let ok = run.run(&m, &path, &p.queries, o, &mut porc);
+        if p.curved && has_degenerate_curve(&p.cmds, p.tol.max(1e-4)) {
+            porc = Oracle::new();
+        }
+        if let vh::Verdict::Fail { .. } = porc.verdict {
+            if !orc.failed() {
+                orc.verdict = porc.verdict;
+                // say where in the object's life the failure happened
+                if let vh::Verdict::Fail { detail, .. } = &mut orc.verdict {
+                    *detail = format!("[phase {} of the measurements' history, entry {}] {}", i, p.entry.word(), detail);
+                }
+            }
+        }
+        if !ok {
+            return Err(());
+        }
+        used = Some(m);
+    }
+    Ok(used)
+}
+
 fn sampler_case(ctx: &mut Ctx, family: &'static str, fixed: Option<(Vec<Cmd>, usize, bool, Vec<Query>, &'static str)>) {
     let curved = family == "curved";
+    let is_fixed = fixed.is_some();
     ctx.case(family, move |rng| {
         let (cmds, nattr, normalized, queries, tag) = match fixed {
             Some((c, n, nm, q, t)) => (c, n, nm, q, t.to_string()),
@@ -971,6 +1181,9 @@ fn sampler_case(ctx: &mut Ctx, family: &'static str, fixed: Option<(Vec<Cmd>, us
             }
         };
         let tol = if curved { *rng.pick(&[0.01f32, 0.05, 0.1, 0.5]) } else { 0.01 };
+        // the life of the PathMeasurements object before it measures this path (last draws)
+        let hist = if is_fixed { History::none() } else { gen_history(rng, curved) };
+        let tag = format!("{}{}", tag, hist.tag());
         let mut args = Out::new();
         if curved {
             args.f(tol);
@@ -978,14 +1191,26 @@ fn sampler_case(ctx: &mut Ctx, family: &'static str, fixed: Option<(Vec<Cmd>, us
         args.u(nattr as u64).b(normalized);
         put_cmds(&mut args, &cmds, true);
         put_queries(&mut args, &queries);
+        put_history(&mut args, &hist);
         (args, tag, move || {
             let mut o = Out::new();
+            let mut horc = Oracle::new();
+            let used = match run_phases(&hist, &mut o, &mut horc) {
+                Ok(u) => u,
+                Err(()) => return CaseOut { imp: o, orcl: horc.verdict },
+            };
             let mut orc = Oracle::new();
-            let run = SamplerRun { cmds: &cmds, nattr, normalized, tol, curved };
-            run.run(&queries, &mut o, &mut orc);
+            let path = build_path(&cmds, nattr);
+            let m = hist.last.obtain(used, &path, tol);
+            let run = SamplerRun { cmds: &cmds, nattr, sattr: hist.sattr, normalized, tol, curved };
+            run.run(&m, &path, &queries, &mut o, &mut orc);
             if curved && has_degenerate_curve(&cmds, tol) {
                 orc = Oracle::new();
                 orc.skip("degenerate-curve-c09");
+            }
+            // a failure in an earlier phase of the object's life is a failure of the case
+            if horc.failed() && !orc.failed() {
+                orc = horc;
             }
             CaseOut { imp: o, orcl: orc.verdict }
         })
@@ -1005,24 +1230,32 @@ struct WalkOut {
     events: Vec<(Pt, lyon_geom::Vector<f32>, f32, Vec<f32>)>,
 }
 
+/// One walk per entry of `walks` = (path, start, callback cap), in turn, all with the SAME pattern
+/// object (and the same callback, whose event counter starts again for each walk): whatever the
+/// pattern keeps between walks (`RepeatedPattern::index`) is part of the input of the later ones.
 /// `nattr == 0`: `walk_along_path` on the built path (the public entry point).
 /// `nattr > 0`: the same loop (`path_event`, stop when the pattern said stop) over
 /// `PathWalker::with_attributes`, which `walk_along_path` cannot reach.
-fn run_walk(cmds: &[Cmd], nattr: usize, start: f32, tol: f32, pat: &Pattern, cap: usize) -> WalkOut {
+fn run_walks(walks: &[(&[Cmd], f32, usize)], nattr: usize, tol: f32, pat: &Pattern) -> Vec<WalkOut> {
     use std::cell::{Cell, RefCell};
     let events = RefCell::new(Vec::new());
     let n = Cell::new(0usize);
+    let cap = Cell::new(0usize);
     let stopped = Cell::new(false);
     let mut cb = |e: WalkerEvent| {
         events.borrow_mut().push((e.position, e.tangent, e.distance, e.attributes.to_vec()));
         n.set(n.get() + 1);
-        let go = n.get() <= cap;
+        let go = n.get() <= cap.get();
         if !go {
             stopped.set(true);
         }
         go
     };
-    let mut drive = |pattern: &mut dyn lyon_algorithms::walk::Pattern| {
+    let mut outs = Vec::new();
+    let mut drive = |pattern: &mut dyn lyon_algorithms::walk::Pattern, cmds: &[Cmd], start: f32, c: usize| {
+        n.set(0);
+        cap.set(c);
+        stopped.set(false);
         if nattr == 0 {
             let path = build_path(cmds, 0);
             walk_along_path(path.iter(), start, tol, pattern);
@@ -1049,18 +1282,31 @@ fn run_walk(cmds: &[Cmd], nattr: usize, start: f32, tol: f32, pat: &Pattern, cap
                 }
             }
         }
+        outs.push(WalkOut { events: std::mem::take(&mut *events.borrow_mut()) });
     };
     match pat {
         Pattern::Reg(i) => {
             let mut p = RegularPattern { callback: &mut cb, interval: *i };
-            drive(&mut p);
+            for (cmds, start, c) in walks {
+                drive(&mut p, cmds, *start, *c);
+            }
         }
         Pattern::Rep(v, idx) => {
             let mut p = RepeatedPattern { callback: &mut cb, intervals: &v[..], index: *idx };
-            drive(&mut p);
+            for (cmds, start, c) in walks {
+                drive(&mut p, cmds, *start, *c);
+            }
         }
     }
-    WalkOut { events: events.into_inner() }
+    outs
+}
+
+/// the pattern as a later walk sees it after an earlier walk of `events` callbacks with cap `cap`
+fn pattern_after(pat: &Pattern, events: usize, cap: usize) -> Pattern {
+    match pat {
+        Pattern::Reg(i) => Pattern::Reg(*i),
+        Pattern::Rep(v, idx) => Pattern::Rep(v.clone(), idx + events.min(cap)),
+    }
 }
 
 fn pattern_request(pat: &Pattern, k: usize) -> f32 {
@@ -1072,6 +1318,7 @@ fn pattern_request(pat: &Pattern, k: usize) -> f32 {
 
 fn walk_case(ctx: &mut Ctx, family: &'static str, fixed: Option<(Vec<Cmd>, usize, f32, Pattern, usize, &'static str)>) {
     let curved = family == "curved_walk";
+    let is_fixed = fixed.is_some();
     ctx.case(family, move |rng| {
         let (cmds, nattr, start, pat, cap, tag) = match fixed {
             Some((c, na, s, p, cap, t)) => (c, na, s, p, cap, t.to_string()),
@@ -1127,6 +1374,28 @@ fn walk_case(ctx: &mut Ctx, family: &'static str, fixed: Option<(Vec<Cmd>, usize
             }
         };
         let tol = if curved { *rng.pick(&[0.01f32, 0.05, 0.1]) } else { 0.1 };
+        // histories (last draws): an earlier walk with the same pattern object, and the life of
+        // the PathMeasurements object that measures the walked path
+        let pre: Option<(Vec<Cmd>, f32, usize)> = if !is_fixed && rng.chance(1, 3) {
+            let coords = if rng.chance(1, 2) { Coords::Lattice } else { Coords::Uniform };
+            let (c0, _) = gen_path(rng, nattr, curved, coords);
+            let l0 = *vertex_distances(&c0).last().unwrap();
+            let start0 = match rng.below(4) {
+                0 => 0.0,
+                1 => rng.range(0, 8) as f32 * 0.5,
+                _ => rng.unit() as f32 * l0.max(1.0) * 0.5,
+            };
+            let nonpos = match &pat {
+                Pattern::Reg(i) => !(*i > 0.0),
+                Pattern::Rep(v, _) => v.iter().any(|x| !(*x > 0.0)),
+            };
+            let cap0 = if nonpos { rng.range(0, 8) as usize } else { rng.range(0, 40) as usize };
+            Some((c0, start0, cap0))
+        } else {
+            None
+        };
+        let hist = if is_fixed { History::none() } else { gen_history(rng, curved) };
+        let tag = format!("{}{}{}", tag, if pre.is_some() { " used-pattern" } else { "" }, hist.tag());
         let mut args = Out::new();
         if curved {
             args.f(tol);
@@ -1144,11 +1413,35 @@ fn walk_case(ctx: &mut Ctx, family: &'static str, fixed: Option<(Vec<Cmd>, usize
             }
         }
         put_cmds(&mut args, &cmds, true);
+        if let Some((c0, s0, cap0)) = &pre {
+            args.t("P").f(*s0).u(*cap0 as u64);
+            put_cmds(&mut args, c0, true);
+        }
+        put_history(&mut args, &hist);
         (args, tag, move || {
             let mut o = Out::new();
             let mut orc = Oracle::new();
             let path = build_path(&cmds, nattr);
-            let w = run_walk(&cmds, nattr, start, tol, &pat, cap);
+            let mut walks: Vec<(&[Cmd], f32, usize)> = Vec::new();
+            if let Some((c0, s0, cap0)) = &pre {
+                walks.push((&c0[..], *s0, *cap0));
+            }
+            walks.push((&cmds[..], start, cap));
+            let mut ws = run_walks(&walks, nattr, tol, &pat);
+            let w = ws.pop().unwrap();
+            // the pattern object as this walk found it
+            let mut pat_now = pat.clone();
+            let mut porc = Oracle::new();
+            if let (Some(w0), Some((c0, s0, cap0))) = (ws.pop(), &pre) {
+                o.t("pre").u(w0.events.len() as u64);
+                // the earlier walk is a walk like any other: same oracle
+                let m0 = PathMeasurements::from_path(&build_path(c0, nattr), tol);
+                check_walk(&mut porc, c0, m0.length(), *s0, tol, &pat, *cap0, &w0, curved);
+                if curved && has_degenerate_curve(c0, tol) {
+                    porc = Oracle::new();
+                }
+                pat_now = pattern_after(&pat, w0.events.len(), *cap0);
+            }
             o.t("n").u(w.events.len() as u64);
             for (p, t, d, a) in &w.events {
                 o.p(*p).v(*t).f(*d);
@@ -1156,10 +1449,29 @@ fn walk_case(ctx: &mut Ctx, family: &'static str, fixed: Option<(Vec<Cmd>, usize
                     o.f(*x);
                 }
             }
-            check_walk(&mut orc, &cmds, &path, start, tol, &pat, cap, &w, curved);
+            // the walked path measured on a PathMeasurements object with a history
+            let mut horc = Oracle::new();
+            let mlen = match run_phases(&hist, &mut o, &mut horc) {
+                Ok(used) => {
+                    let m = hist.last.obtain(used, &path, tol);
+                    if !hist.is_none() {
+                        o.t("mlen").f(m.length());
+                    }
+                    Some(m.length())
+                }
+                Err(()) => None,
+            };
+            if let Some(mlen) = mlen {
+                check_walk(&mut orc, &cmds, mlen, start, tol, &pat_now, cap, &w, curved);
+            }
             if curved && has_degenerate_curve(&cmds, tol) {
                 orc = Oracle::new();
                 orc.skip("degenerate-curve-c09");
+            }
+            for h in [porc, horc] {
+                if h.failed() && !orc.failed() {
+                    orc = h;
+                }
             }
             CaseOut { imp: o, orcl: orc.verdict }
         })
@@ -1167,7 +1479,7 @@ fn walk_case(ctx: &mut Ctx, family: &'static str, fixed: Option<(Vec<Cmd>, usize
 }
 
 #[allow(clippy::too_many_arguments)]
-fn check_walk(orc: &mut Oracle, cmds: &[Cmd], path: &Path, start: f32, tol: f32, pat: &Pattern, cap: usize, w: &WalkOut, curved: bool) {
+fn check_walk(orc: &mut Oracle, cmds: &[Cmd], measured: f32, start: f32, tol: f32, pat: &Pattern, cap: usize, w: &WalkOut, curved: bool) {
     let coarse = ref_edges(cmds, tol);
     let fine = if curved { ref_edges(cmds, (tol * 0.02).max(1e-4)) } else { coarse.clone() };
     let lref = total(&coarse);
@@ -1237,8 +1549,10 @@ fn check_walk(orc: &mut Oracle, cmds: &[Cmd], path: &Path, start: f32, tol: f32,
     }
     // the walk covers the whole path: unless the callback stopped it, the next request would
     // have overshot the measured length (= walker's final distance, within rounding)
-    let m = PathMeasurements::from_path(path, tol);
-    let len = m.length() as f64;
+    // `measured` = PathMeasurements::length() of the walked path (on an object with any history)
+    let len = measured as f64;
+    // the measured length is that of the flattening
+    orc.check((len - lref).abs() <= round, "measure.length/equals-flattening", "generic", || format!("length {} flattening {} allowance {}", len, lref, round));
     let stopped = w.events.len() == cap + 1;
     if !stopped {
         let next = if w.events.is_empty() { start.max(0.0) } else { acc + pattern_request(pat, w.events.len() - 1) };
